@@ -3,7 +3,7 @@
 From Coq Require Import List ZArith NArith Bool.
 From Coq.Strings Require Import Byte.
 Import ListNotations.
-From SV Require Import Text C01_Lines G_codes G_c01_io C01_Model C01_Lemmas C01_Formats C01_Stockholm C01_Domain C01_Main C01_IdPattern C01_Reader.
+From SV Require Import Text C01_Lines G_codes G_c01_io C01_Model C01_Lemmas C01_Formats C01_Dec C01_Stockholm C01_Domain C01_Gff C01_Main C01_IdPattern C01_Reader.
 
 (* the FASTA id matcher of the model was written for exactly the pattern text found in /repo *)
 Theorem C01_idpattern_pinned : FASTA_IDPATTERN_TEXT = IDPATTERN_PINNED.
@@ -130,6 +130,66 @@ Theorem C01_leading_blank_witness :
 Proof. exact (conj eq_refl (conj eq_refl eq_refl)). Qed.
 Print Assumptions C01_leading_blank_witness.
 
+(* ... in any position of the file and with any layout of the record body *)
+Theorem C01_fasta_header_verbatim_general : forall i d body rest st, id_fasta_ok i = true -> d <> [] -> strip d = d ->
+  forallb is_body_line body = true ->
+  iter_fasta st ((GT :: i ++ SP :: d) :: body ++ rest)
+  = bind (iter_fasta (Some (Some i, i ++ SP :: d, payload body)) rest) (fun r => Ok (flush st ++ r))
+  /\ forall x, fasta_header_line (create_bioseq (Some i, i ++ SP :: d, x)) = GT :: i ++ SP :: d.
+Proof. exact fasta_header_verbatim_general. Qed.
+Print Assumptions C01_fasta_header_verbatim_general.
+
+(* Stockholm: an interleaved alignment (two blocks with the same ids, optionally separated by blank lines) is read like
+   the alignment whose rows are the per-id concatenations *)
+Theorem C01_stk_interleave : forall ks vs ws sep rest d, distinct ks = true -> length vs = length ks -> length ws = length ks ->
+  forallb row_ok (combine ks vs) = true -> forallb row_ok (combine ks ws) = true ->
+  forallb row_ok (combine ks (zip_app vs ws)) = true ->
+  forallb (fun l => match strip l with [] => true | _ => false end) sep = true ->
+  stk_loop (map row_line (combine ks vs) ++ sep ++ map row_line (combine ks ws) ++ rest) d
+  = stk_loop (map row_line (combine ks (zip_app vs ws)) ++ rest) d.
+Proof. exact stk_interleave. Qed.
+Print Assumptions C01_stk_interleave.
+
+(* GFF baskets that carry plain features (Feature(type, [Location(start, stop, strand)]) with a seqid): every feature line
+   the writer emits is accepted and skipped by the feature reader, is no '##FASTA' directive and contains no line break ... *)
+Theorem C01_gft_line_ok : forall ft, wf_gft ft = true -> pre_line_ok (gff_ft_line ft) = true.
+Proof. exact gft_line_ok. Qed.
+Print Assumptions C01_gft_line_ok.
+
+(* ... whatever acceptable lines precede the sequence section, the sequences round-trip ... *)
+Theorem C01_gff_pre_roundtrip : forall fl b, forallb pre_line_ok fl = true -> forallb wfb_fasta b = true ->
+  read_content Gff (CText (unlines (write_gff_lines_fts fl b))) = Ok (map (norm_fasta Gff) b)
+  /\ write_gff_lines_fts fl (map (norm_fasta Gff) b) = write_gff_lines_fts fl b.
+Proof. exact gff_pre_roundtrip. Qed.
+Print Assumptions C01_gff_pre_roundtrip.
+
+(* ... hence count, order, ids and residues of a basket with features survive write -> read, and writing the objects read
+   back with the same features gives the same text (the features themselves are property C02) *)
+Theorem C01_gff_fts_roundtrip : forall xs fts, wf_basket Gff xs = true -> forallb wf_gft fts = true ->
+  exists t o, write_w_fts Gff fts (build xs) = Ok t /\ read_content Gff t = Ok o
+    /\ length o = length xs
+    /\ map b_id o = map (fun x => fst (fst x)) xs
+    /\ map b_data o = map (fun x => upper (snd (fst x))) xs
+    /\ write_w_fts Gff fts o = Ok t.
+Proof. exact gff_fts_roundtrip_all. Qed.
+Print Assumptions C01_gff_fts_roundtrip.
+
+(* reader side for GFF3 + ##FASTA and for Stockholm: any text of the reader domain is read into the writer domain and
+   reaches the fixpoint with the first written text *)
+Theorem C01_gff_reader_fixpoint : forall t, wf_text Gff t = true ->
+  exists o1 t2, read_content Gff (CText t) = Ok o1 /\ forallb wfb_fasta o1 = true
+    /\ write_w Gff o1 = Ok t2 /\ read_content Gff t2 = Ok (map (norm_fasta Gff) o1)
+    /\ write_w Gff (map (norm_fasta Gff) o1) = Ok t2.
+Proof. exact gff_reader_fixpoint. Qed.
+Print Assumptions C01_gff_reader_fixpoint.
+
+Theorem C01_stockholm_reader_fixpoint : forall t, wf_text Stockholm t = true ->
+  exists o1 t2, read_content Stockholm (CText t) = Ok o1 /\ wf_stk_basket o1 = true
+    /\ write_w Stockholm o1 = Ok t2 /\ read_content Stockholm t2 = Ok (map (norm_plain Stockholm) o1)
+    /\ write_w Stockholm (map (norm_plain Stockholm) o1) = Ok t2.
+Proof. exact stockholm_reader_fixpoint. Qed.
+Print Assumptions C01_stockholm_reader_fixpoint.
+
 (* non-vacuity: a basket with a lower-case protein containing 'meta', a db-tag free id with ':' and a description header *)
 Example C01_witness_domain :
   wf_basket Fasta [(Some (bs "seq:1"%bs), bs "lametal*"%bs, Some (bs "seq:1 some protein"%bs)); (Some (bs "n2"%bs), bs "ACGU-n"%bs, None)] = true
@@ -148,3 +208,9 @@ Example C01_witness_reader :
   wf_text Fasta (bs ">gb:x1 a protein"%bs ++ [x0d; x0a] ++ bs "lame"%bs ++ [x0a] ++ bs ";c"%bs ++ [x0a; x0a] ++ bs " tal* "%bs ++ [x0a]) = true
   /\ id_from_header (bs "sp|P1|NAME_X desc"%bs) = Some (bs "P1"%bs).
 Proof. exact (conj eq_refl eq_refl). Qed.
+
+Example C01_witness_gff_fts :
+  wf_gft (mk_gft (bs "chr:1#a"%bs) (bs "gene"%bs) 1 4 "-"%byte) = true
+  /\ Bstr (gff_ft_line (mk_gft (bs "chr:1#a"%bs) (bs "gene"%bs) 1 4 "-"%byte)) = Bstr (bs "chr%3A1%23a"%bs ++ [x09] ++ bs "."%bs ++ [x09] ++ bs "gene"%bs ++ [x09] ++ bs "2"%bs ++ [x09] ++ bs "4"%bs ++ [x09] ++ bs "."%bs ++ [x09] ++ bs "-"%bs ++ [x09] ++ bs "."%bs ++ [x09] ++ bs "."%bs)
+  /\ wf_text Stockholm (bs "# STOCKHOLM 1.0"%bs ++ [x0a] ++ bs "s1 ACGU"%bs ++ [x0a] ++ bs "#=GC SS_cons ...."%bs ++ [x0a; x0a] ++ bs "s1  meta"%bs ++ [x0a] ++ bs "//"%bs ++ [x0a]) = true.
+Proof. exact (conj eq_refl (conj eq_refl eq_refl)). Qed.
